@@ -482,9 +482,52 @@ def _plant(events):
     gen_comp = as_prescribed(next((e for e in events if instr_not_on_last(e)), None))
     gen_packed = as_prescribed(next((e for e in events if e["ev"] == "Gen" and e["a"]["k"] == "glyphp"
                                      and len(e["a"]["exp"]["back1"]["pts"]) == 3), None))
-    if not all([gen_exact, gen_free, gen_back, gen_err, tab_small, tab_big, tab_cff, wop, gen_comp, gen_packed]):
+    # the new kinds: events as the specification prescribes them (TLC's own bytes and facts), then corrupted
+    def prescribed_cfft(e):
+        if e is None:
+            return None
+        e = json.loads(json.dumps(e))
+        f = e["a"]["exp"]["facts"]
+        e["o"] = {"res": "Ok", "back1": f, "bytes": e["a"]["src"], "back": json.loads(json.dumps(f)), "again": "same"}
+        return e
+
+    def prescribed_ivd(e):
+        if e is None:
+            return None
+        e = json.loads(json.dumps(e))
+        x = e["a"]["exp"]
+        e["o"] = {"res": "Ok", "rem1": 0, "rows1": x["rows"], "bytes": list(x["bytes"]), "rem": 0, "rows": x["rows"], "again": "same"}
+        return e
+    gen_cfft = prescribed_cfft(next((e for e in events if e["ev"] == "Gen" and e["a"]["k"] == "cfft" and len(e["a"].get("src", [])) < 2000
+                                     and len(e["a"]["exp"]["facts"]["strs"]) >= 2 and e["a"]["exp"]["facts"]["gs"]), None))
+    gen_ivd = prescribed_ivd(next((e for e in events if e["ev"] == "Gen" and e["a"]["k"] == "ivd" and len(e["a"]["exp"]["bytes"]) > 8
+                                   and e["a"]["exp"]["bytes"][2] >= 128 and e["a"]["exp"]["rows"] >= 1), None))
+    if not all([gen_exact, gen_free, gen_back, gen_err, tab_small, tab_big, tab_cff, wop, gen_comp, gen_packed, gen_cfft, gen_ivd]):
         raise vlib.ToolError("binding self-check: no conforming event to corrupt (%s)" % [
-            bool(x) for x in (gen_exact, gen_free, gen_back, gen_err, tab_small, tab_big, tab_cff, wop, gen_comp, gen_packed)])
+            bool(x) for x in (gen_exact, gen_free, gen_back, gen_err, tab_small, tab_big, tab_cff, wop, gen_comp, gen_packed,
+                              gen_cfft, gen_ivd)])
+    add(gen_cfft, "gen-cfft-control-accepted")       # negative control: the prescribed event itself must be accepted
+    add(gen_ivd, "gen-ivd-control-accepted")
+    e = add(gen_cfft, "gen-cfft-string-index-shifted")   # what an unfilled reservation does: an empty INDEX where the
+    b = e["o"]["bytes"]                                  # String INDEX should be, the real one behind it
+
+    def skip_index(b, at):
+        n = b[at] * 256 + b[at + 1]
+        if n == 0:
+            return at + 2
+        sz = b[at + 2]
+        last = int.from_bytes(bytes(b[at + 3 + n * sz: at + 3 + (n + 1) * sz]), "big")
+        return at + 3 + (n + 1) * sz + last - 1
+    at = skip_index(b, skip_index(b, b[2]))
+    e["o"]["bytes"] = b[:at] + [0, 0] + b[at:]
+    e = add(gen_cfft, "gen-cfft-reread-lost-string")     # allsorts' own second reading lost the strings
+    e["o"]["back"]["strs"] = []
+    e = add(gen_cfft, "gen-cfft-first-read")
+    e["o"]["back1"]["gs"] = e["o"]["back1"]["gs"][1:]
+    e = add(gen_ivd, "gen-ivd-long-words-flag-lost")      # bit 15 of wordDeltaCount dropped by the writer
+    e["o"]["bytes"][2] -= 128
+    e = add(gen_ivd, "gen-ivd-rows")
+    e["o"]["rows"] += 1
     e = add(gen_comp, "gen-composite-instructions-dropped")   # the block is gone, the flag words still announce it
     n_i = len(e["a"]["exp"]["back"]["instr"])
     e["o"]["bytes"] = e["o"]["bytes"][:-(n_i + 2)]
@@ -591,10 +634,12 @@ def run(ctx):
             what = "table %s of %s: %s (%s)" % (e["a"]["k"], e["case"], m["reason"], vlib.short(
                 {k: e["o"].get(k) for k in ("w1", "parse2", "w2", "len0", "len1", "len2")}, 200))
         violations.append(Violation(key, what, {"source": e["ev"], "reason": m["reason"], "event": _strip(e)}))
-    want_planted = {e["case"] for e in events[n_real:]}
+    all_planted = {e["case"] for e in events[n_real:]}
+    controls = {c for c in all_planted if c.endswith("-control-accepted")}
+    want_planted = all_planted - controls
     if planted_seen != want_planted:
-        raise vlib.ToolError("binding self-check failed: Trace_Codec accepted corrupted events %s" %
-                             sorted(want_planted - planted_seen))
+        raise vlib.ToolError("binding self-check failed: Trace_Codec accepted corrupted events %s, rejected controls %s" %
+                             (sorted(want_planted - planted_seen), sorted(planted_seen & controls)))
 
     # ---- vacuity
     gen_kinds, gen_refused, gen_canonical = {}, {}, {}
